@@ -336,6 +336,11 @@ ROUND6 = {
            "abandoned part-way): exactly one well-formed INTERNAL_ERROR reply, handler once, the calls that follow served (direct oracle).",
     "C05": " Round 6: the JSON payloads also announce negative container sizes and 64-bit sizes whose low word is a small int32; a recovered "
            "panic in Process is a failure.",
+    "C09": " Round 6: mode hammer - back-to-back invocations of ONE frugal.Method (the reflective layer of every generated client method, "
+           "processor function and subscriber callback; 0-3 pass-through middlewares) from 16 goroutines, each with its own FContext: the "
+           "handler sees its invocation's context, the caller its handler's result and response header (direct oracle).",
+    "C19": " Round 6: every option set that does not stamp the day by design is compiled once more by the compiler built with the verif "
+           "tag and told through FRUGAL_VERIF_NOW (hook compiler/globals/verif_now.go) that it is 2031-03-07: same bytes.",
     "C11": " Round 6: generated programs default list / set / map fields to a constant of the file by name.",
     "C12": " Round 6: all HTTP transports of the harness are given one shared map of static request headers (the caller's map).",
     "C13": " Round 6: an HTTP peer that takes the request, stays silent for 3/4 of the timeout and hangs up, every time.",
